@@ -110,6 +110,7 @@ class Ctx:
         self.current = None  # (stream, index)
         self.t0 = time.time()
         self.deadline = None
+        self.excuse = None  # callable(mechanism, observed, note) -> True when the environment, not the library, is responsible
         self._known = load_known(prop)
 
     # ---- case streams -------------------------------------------------------------------------------------
@@ -162,6 +163,9 @@ class Ctx:
     def violation(self, mechanism, case, expected=None, observed=None, note=""):
         """Record a refuting observation.  `mechanism` names *how* it fails (used for known-findings lookup and for
         de-duplication), never a seed or a hash."""
+        if self.excuse is not None and self.excuse(mechanism, observed, note):
+            self.counts["excused by the environment:" + mechanism[:80]] += 1
+            return
         entry = self._known.get(mechanism)
         if entry and entry.get("status") == "known":
             self.known_hits[mechanism] += 1
